@@ -225,7 +225,7 @@ func TestC09(t *testing.T) {
 		v2 := conf.version == 2
 		var key *frame.V2Key
 		if conf.keyRaw != nil {
-			key = frame.NewV2Key(conf.keyRaw)
+			key = mkKey(conf.keyRaw)
 		}
 		nItems := 600 + r.Intn(vh.Pick(400, 4400))
 
@@ -449,7 +449,7 @@ func TestC09(t *testing.T) {
 	} {
 		var key *frame.V2Key
 		if ic.key {
-			key = frame.NewV2Key(r.Bytes(32))
+			key = mkKey(r.Bytes(32))
 		}
 		rep.Eval(2)
 		rep.Count("init_cases", 2)
